@@ -17,6 +17,13 @@
 (*   Reserve: ReserveEnter read the unpaid balance (no lock), call             *)
 (*                         settlement.AvailableBalance                         *)
 (*            ReserveExit  it returns; refuse iff available < balance + amount *)
+(*   first contact: every call starts in getAccountingPeer under the map mutex  *)
+(*            (accountingPeersMu).  For a peer accounting has not seen yet it    *)
+(*            calls settlement.RetrieveTraffic while holding that mutex (pc      *)
+(*            "init", a gate); when it returns the peer is inserted, the mutex   *)
+(*            released and the call goes on.  Any call that starts meanwhile     *)
+(*            waits for the map mutex (pc "mwait").                              *)
+(* Reserve takes the peer lock for its read (and releases it before the gate).  *)
 (* A call that needs a held lock waits (pc "wait"); when the holder unlocks,   *)
 (* the waiter runs its first section before anything else happens (that is     *)
 (* what a forced schedule can reproduce deterministically; at most one waiter  *)
@@ -28,7 +35,8 @@ EXTENDS Integers, Sequences, FiniteSets
 CONSTANTS NP,        \* peers 1..NP
           Threads,   \* goroutines
           Thr,       \* payment threshold
-          Tol        \* payment tolerance
+          Tol,       \* payment tolerance
+          Fresh      \* TRUE: accounting has not seen any peer yet (first contact is part of the behaviour)
 
 Peers == 1..NP
 
@@ -41,7 +49,9 @@ MaxA(a, b) == IF a > b THEN a ELSE b
 
 InitA == [unpaid   |-> ZeroP,                         \* accountingPeer.unPaidTraffic
           lock     |-> ZeroP,                         \* holder of accountingPeer.lock, or 0
-          pc       |-> [t \in Threads |-> "idle"],    \* idle | c_put | d_get | d_put | r_bal | wait
+          known    |-> [p \in Peers |-> ~Fresh],      \* the peer is in the accountingPeers map
+          maplock  |-> 0,                             \* holder of accountingPeersMu across a first contact, or 0
+          pc       |-> [t \in Threads |-> "idle"],    \* idle | init | mwait | c_put | d_get | d_put | r_bal | wait
           loc      |-> [t \in Threads |-> NoCall],
           granted  |-> 0,                             \* waiter that was handed a lock and runs next
           pays     |-> ZeroP,                         \* payment requests issued per peer
@@ -51,7 +61,8 @@ InitA == [unpaid   |-> ZeroP,                         \* accountingPeer.unPaidTr
 
 Call(kind, p, x, traff, avail) == [kind |-> kind, p |-> p, x |-> x, traff |-> traff, avail |-> avail, u |-> 0]
 
-NeedsLock(kind) == kind \in {"credit", "debit", "notify"}
+NeedsLock(kind) == kind \in {"credit", "debit", "notify", "reserve"}
+MapWaiters(a) == {t \in Threads : a.pc[t] = "mwait"}
 Waiters(a, p) == {t \in Threads : a.pc[t] = "wait" /\ a.loc[t].p = p}
 
 (***************************************************************************)
@@ -62,12 +73,17 @@ Enter(a, t, c) ==
     [] c.kind = "debit"   -> [a EXCEPT !.lock[c.p] = t, !.pc[t] = "d_get", !.loc[t] = c]
     [] c.kind = "notify"  -> [a EXCEPT !.unpaid[c.p] = IF @ <= 0 THEN @ ELSE MaxA(0, @ - c.x),
                                        !.lock[c.p] = 0, !.pc[t] = "idle", !.loc[t] = NoCall]
-    [] c.kind = "reserve" -> [a EXCEPT !.pc[t] = "r_bal", !.loc[t] = [c EXCEPT !.u = a.unpaid[c.p]]]
+    [] c.kind = "reserve" -> [a EXCEPT !.pc[t] = "r_bal", !.loc[t] = [c EXCEPT !.u = a.unpaid[c.p]],
+                                       !.lock[c.p] = IF @ = t THEN 0 ELSE @]
 
-\* a goroutine starts a call
+\* a goroutine starts a call: map mutex, first contact if the peer is new, then the call's first section
 CallOK(a, t) == a.pc[t] = "idle" /\ a.granted = 0
 Blocks(a, t, c) == NeedsLock(c.kind) /\ a.lock[c.p] # 0
-Start(a, t, c) == IF Blocks(a, t, c) THEN [a EXCEPT !.pc[t] = "wait", !.loc[t] = c] ELSE Enter(a, t, c)
+Start2(a, t, c) == IF Blocks(a, t, c) THEN [a EXCEPT !.pc[t] = "wait", !.loc[t] = c] ELSE Enter(a, t, c)
+Start(a, t, c) ==
+  IF a.maplock # 0 THEN [a EXCEPT !.pc[t] = "mwait", !.loc[t] = c]
+  ELSE IF ~a.known[c.p] THEN [a EXCEPT !.maplock = t, !.pc[t] = "init", !.loc[t] = c]
+  ELSE Start2(a, t, c)
 
 \* the holder unlocks: a waiter (if any) is handed the lock
 Unlock(a, p) ==
@@ -75,16 +91,27 @@ Unlock(a, p) ==
   IN IF W = {} THEN [a EXCEPT !.lock[p] = 0]
      ELSE LET w == CHOOSE t \in W : TRUE IN [a EXCEPT !.lock[p] = w, !.granted = w]
 
-\* the waiter runs its first section; a notify unlocks again at once
+\* the map mutex is released: a goroutine waiting for it goes on
+MapUnlock(a) ==
+  LET W == MapWaiters(a)
+  IN IF W = {} THEN [a EXCEPT !.maplock = 0]
+     ELSE LET w == CHOOSE t \in W : TRUE IN [a EXCEPT !.maplock = 0, !.granted = w]
+
+\* the waiter runs: a map waiter looks the peer up (again a first contact if it is still new); a peer-lock
+\* waiter runs its first section; a notify / reserve unlocks again at once
 Grant(a, w) ==
   LET c == a.loc[w]
-      b == Enter([a EXCEPT !.granted = 0], w, c)
-  IN IF c.kind = "notify" THEN Unlock([b EXCEPT !.lock[c.p] = w], c.p) ELSE b
+      a0 == [a EXCEPT !.granted = 0]
+  IN IF a.pc[w] = "mwait"
+     THEN IF ~a.known[c.p] THEN [a0 EXCEPT !.maplock = w, !.pc[w] = "init"]
+          ELSE MapUnlock(Start2([a0 EXCEPT !.pc[w] = "idle"], w, c))
+     ELSE LET b == Enter(a0, w, c)
+          IN IF c.kind \in {"notify", "reserve"} THEN Unlock([b EXCEPT !.lock[c.p] = w], c.p) ELSE b
 
 (***************************************************************************)
 (* release of a gate: the settlement call returns                           *)
 (***************************************************************************)
-AtGate(a, t) == a.pc[t] \in {"c_put", "d_get", "d_put", "r_bal"}
+AtGate(a, t) == a.pc[t] \in {"init", "c_put", "d_get", "d_put", "r_bal"}
 ReleaseOK(a, t) == AtGate(a, t) /\ a.granted = 0
 
 ReserveRefuses(c) == c.avail < c.u + c.x
@@ -92,7 +119,9 @@ DebitRefuses(c) == c.traff >= Tol
 
 Release(a, t) ==
   LET c == a.loc[t] IN
-  CASE a.pc[t] = "c_put" ->
+  CASE a.pc[t] = "init" ->      \* RetrieveTraffic returns: insert the peer, release the map mutex, go on with the call
+         MapUnlock(Start2([a EXCEPT !.known[c.p] = TRUE, !.pc[t] = "idle"], t, c))
+    [] a.pc[t] = "c_put" ->
          LET due == a.unpaid[c.p] >= Thr
          IN Unlock([a EXCEPT !.pays[c.p] = IF due THEN @ + 1 ELSE @, !.due[c.p] = IF due THEN @ + 1 ELSE @,
                              !.pc[t] = "idle", !.loc[t] = NoCall], c.p)
@@ -119,8 +148,11 @@ Init == A = InitA /\ res = [op |-> "init"] /\ nops = 0
 
 Do(a2, name) == A' = a2 /\ res' = [op |-> name]
 
-\* at most one waiter per lock (what a forced schedule can order deterministically)
-StartAllowed(a, t, c) == CallOK(a, t) /\ (Blocks(a, t, c) => Waiters(a, c.p) = {})
+\* few waiters per lock: which of several waiters a mutex wakes first is not under the controller's control
+StartAllowed(a, t, c) ==
+  /\ CallOK(a, t)
+  /\ a.maplock # 0 => Cardinality(MapWaiters(a)) < 2
+  /\ (a.maplock = 0 /\ a.known[c.p] /\ Blocks(a, t, c)) => Waiters(a, c.p) = {}
 
 Next ==
   \/ /\ A.granted # 0 /\ Do(Grant(A, A.granted), "grant") /\ UNCHANGED nops
@@ -147,8 +179,13 @@ LockProtocol ==
   /\ \A t \in Threads : A.pc[t] \in {"c_put", "d_get", "d_put"} => A.lock[A.loc[t].p] = t
   /\ \A p \in Peers : A.lock[p] # 0 => \/ A.pc[A.lock[p]] \in {"c_put", "d_get", "d_put"} /\ A.loc[A.lock[p]].p = p
                                        \/ A.granted = A.lock[p]
-  /\ \A p \in Peers : Cardinality(Waiters(A, p)) <= 1
+  /\ \A p \in Peers : Cardinality(Waiters(A, p)) <= 2
   /\ \A t \in Threads : A.pc[t] = "wait" => A.lock[A.loc[t].p] # 0
+  \* the map mutex is held exactly across a first contact, and only new peers have one
+  /\ \A t \in Threads : A.pc[t] = "init" <=> A.maplock = t
+  /\ \A t \in Threads : A.pc[t] = "init" => ~A.known[A.loc[t].p]
+  /\ \A t \in Threads : A.pc[t] = "mwait" => (A.maplock # 0 \/ A.granted # 0)
+  /\ \A t \in Threads : A.pc[t] \in {"c_put", "d_get", "d_put", "r_bal", "wait"} => A.known[A.loc[t].p]
 
 \* a payment is requested for every credit that leaves the balance at or above the threshold
 PaymentRequested == \A p \in Peers : A.pays[p] = A.due[p]
@@ -157,7 +194,7 @@ PaymentRequested == \A p \in Peers : A.pays[p] = A.due[p]
 NoDeadlock == (~ENABLED Next) => \A t \in Threads : A.pc[t] = "idle"
 
 \* the balance moves only by a credit entering, or a payment notification (never below zero)
-BalanceFrame == [][\A p \in Peers : A'.unpaid[p] # A.unpaid[p] => res'.op \in {"call", "grant"}]_<<vars, nops>>
+BalanceFrame == [][\A p \in Peers : A'.unpaid[p] # A.unpaid[p] => res'.op \in {"call", "grant", "release"}]_<<vars, nops>>
 \* a refused debit is not recorded; a served one is
 DebitFrame == [][\A p \in Peers : A'.recorded[p] # A.recorded[p] => A'.refused[p] = A.refused[p]]_<<vars, nops>>
 =============================================================================
